@@ -229,7 +229,9 @@ def content_of(qc):
 
 def apply_edit(qc, e):
     """in-place edits of a circuit object: ["arg", i, value] | ["targets", i, [..]] | ["controls", i, [..]] |
-    ["swap_roles", i] | ["replace", i, [name, targets, controls, value]] | ["append", gate] | ["remove", i]"""
+    ["swap_roles", i] | ["replace", i, [name, targets, controls, value]] | ["append", gate] | ["remove", i]; through the
+    gate list itself: ["extend", gates] | ["insert", i, gate] | ["set", i, gate] | ["slice", i, j, gates] |
+    ["copy_extend", gates] (deepcopy of the circuit, then extend).  -> the circuit object to go on with"""
     kind = e[0]
     if kind == "arg":
         qc.gates[e[1]].arg_value = e[2]
@@ -249,8 +251,24 @@ def apply_edit(qc, e):
         qc.add_gate(n, targets=(t or None), controls=(c or None), arg_value=v)
     elif kind == "remove":
         qc.remove_gate_or_measurement(index=e[1])
+    elif kind in ("extend", "insert", "set", "slice", "copy_extend"):
+        # edits through the public attribute `gates` (add_gate is not involved)
+        from copy import deepcopy
+        objs = lambda gl: raw_circuit(qc.N, gates_of({"gates": gl})).gates
+        if kind == "extend":
+            qc.gates.extend(objs(e[1]))
+        elif kind == "insert":
+            qc.gates.insert(e[1], objs([e[2]])[0])
+        elif kind == "set":
+            qc.gates[e[1]] = objs([e[2]])[0]
+        elif kind == "slice":
+            qc.gates[e[1]:e[2]] = objs(e[3])
+        else:
+            qc = deepcopy(qc)
+            qc.gates.extend(objs(e[1]))
     else:
         raise ValueError("unknown edit " + repr(e))
+    return qc
 
 
 def new_processor(dev, M):
@@ -324,7 +342,7 @@ def check_object_history(w):
     for k, stp in enumerate(o["steps"]):
         if "edit" in stp:
             try:
-                apply_edit(qc, stp["edit"])
+                qc = apply_edit(qc, stp["edit"])
             except Exception as e:
                 return False, f"edit {stp['edit']} not applicable ({type(e).__name__})"
             done.append("edit " + json.dumps(stp["edit"]))
@@ -336,6 +354,14 @@ def check_object_history(w):
             return False, "outside the property's class (content after the edits is not a circuit of library gates)"
         where = (f"step {k + 1} of {len(o['steps'])} ({stp['call']} on the same {dev}({M}) and the same circuit object"
                  + (", after " + "; ".join(done[-2:]) if done else "") + "): ")
+        if stp["call"] == "map":
+            # the circuit returned by topology_map is the one the following steps work on
+            try:
+                qc = proc.topology_map(qc)
+            except NotImplementedError:
+                pass
+            done.append("topology_map")
+            continue
         if stp["call"] == "transpile":
             st, r, _ = impl_transpile(dev, N, [], qc, M, proc)
             f, d, _ = judge(cw, native, st, r, qc)
@@ -598,7 +624,7 @@ def ohist(dev, N, gates, steps, M=None):
     return {"object_history": o}
 
 
-T, L, R = {"call": "transpile"}, {"call": "load"}, {"call": "run_state"}
+T, L, R, MAP = {"call": "transpile"}, {"call": "load"}, {"call": "run_state"}, {"call": "map"}
 
 
 def ed(*e):
@@ -624,6 +650,15 @@ def object_histories(full=True):
                                             ed("targets", 2, [0]), L])
         yield "run", ohist(dev, 2, [["RX", [0], [], 0.3], ["ISWAP", [0, 1], [], None]],
                            [R, ed("arg", 0, 2.1), R, ed("targets", 0, [1]), T])
+        # the circuit RETURNED by topology_map: handed to transpile (with a three-qubit gate in it), extended through its
+        # gate list and transpiled
+        tof = [["TOFFOLI", [2], [0, 1], None]]
+        yield "mapped", ohist(dev, 3, tof, [MAP, T])
+        yield "mapped", ohist(dev, 3, base, [MAP, ed("extend", [["CNOT", [0], [2], None]]), T, MAP, T])
+        yield "mapped", ohist(dev, 4, [["ISWAP", [0, 3], [], None]],
+                              [MAP, ed("insert", 0, ["CNOT", [3], [0], None]), T, ed("copy_extend", [["FREDKIN", [0, 2], [1], None]]), T])
+        yield "mapped", ohist(dev, 3, base, [MAP, ed("slice", 0, 1, [["SWAP", [0, 2], [], None]]), T,
+                                             ed("set", 0, ["CSIGN", [2], [0], None]), L])
         if not full:
             continue
         # one two-qubit gate on every pair: the roles / the pair changed in place
@@ -948,7 +983,12 @@ class C13(PropertyCheck):
                 contents = []
                 for stp in o["steps"]:
                     if "edit" in stp:
-                        apply_edit(sim, stp["edit"])
+                        sim = apply_edit(sim, stp["edit"])
+                    elif stp["call"] == "map":
+                        try:
+                            sim = new_processor(dev, N if M is None else M).topology_map(sim)
+                        except NotImplementedError:
+                            pass
                     elif stp["call"] == "transpile":
                         gs = gates_of({"gates": content_of(sim)})
                         contents.append(gs)
@@ -967,7 +1007,13 @@ class C13(PropertyCheck):
             first_bad, k_t, rewritten = None, 0, False
             for k, stp in enumerate(o["steps"]):
                 if "edit" in stp:
-                    apply_edit(qc, stp["edit"])
+                    qc = apply_edit(qc, stp["edit"])
+                    continue
+                if stp["call"] == "map":
+                    try:
+                        qc = proc.topology_map(qc)
+                    except NotImplementedError:
+                        pass
                     continue
                 if stp["call"] == "transpile":
                     gs, ans = contents[k_t], outs[pos]
